@@ -27,7 +27,25 @@ def fh(x):
     return St("FactHandle", {"0": x if isinstance(x, I) else I(x, "u64")})
 
 
-def run(N, K, witness=False):
+ID = "C08"
+FEATURES = []
+TIERS = {
+    "quick": [{"N": 4, "K": 4, "covers": ["cascade2", "derived"]}],
+    "thorough": [{"N": 4, "K": 5, "covers": ["cascade2", "derived", "survivor"]},
+                 {"N": 5, "K": 4, "covers": ["cascade2", "derived"]}],
+}
+ASSUMPTIONS = [
+    "every premise is live when its justification is recorded; handles are fresh increasing integers (as allocated by WorkingMemory)",
+    "Instant::now() modelled as a strictly increasing counter (created_at is never read by the TMS)",
+    "HashMap/HashSet modelled as bounded slot lists with one fixed iteration order (slot order); Vec as bounded slot array",
+    "source_rule strings are the constant \"r\" (never read by the cascade)",
+    "a cyclic support (possible through extra justifications) is judged by the literal statement: a logical fact stays while some justification has all premises live (greatest fixpoint)",
+]
+BOUNDS_NOTE = ("bounds: N handles, K operations per history (see runs[].bounds); longer histories, more handles, and the engine-level "
+               "application of the cascade to working memory (IncrementalEngine::retract) are outside the claim")
+
+
+def run(N, K, covers=(), witness=False):
     h = Harness(FILES, cap=max(N, K) + 1, loop_bound=max(N, K) + 2, rec_bound=N + 1)
     ip = h.ip
     h.let("tms", h.call("TruthMaintenanceSystem::new", []))
@@ -137,9 +155,12 @@ def run(N, K, witness=False):
             h.require(bor(bnot(dropped), bnot(explicit[x])), "C08: explicit fact removed by a cascade")
             h.require(bor(bnot(dropped), bnot(hv)), "C08: supported fact was cascaded away")
 
-    h.cover(saw_cascade2, "cascade of length >= 2")
-    h.cover(saw_survivor, "fact survives on a second justification")
-    h.cover(saw_derived_retract, "derived fact retracted directly")
+    if "cascade2" in covers:
+        h.cover(saw_cascade2, "cascade of length >= 2")
+    if "survivor" in covers:
+        h.cover(saw_survivor, "fact survives on a second justification")
+    if "derived" in covers:
+        h.cover(saw_derived_retract, "derived fact retracted directly")
     if witness:
         h.require(False, "C08 witness: end of harness reached")
     res = h.decide()
@@ -168,10 +189,82 @@ def decode(res, m):
     return out
 
 
+def finding_key(msg, trace):
+    return msg
+
+
+def replay_source(trace):
+    ops = []
+    for o in trace:
+        k = {"insert_explicit": 0, "insert_logical": 1, "add_justification": 2, "retract": 3}[o["op"]]
+        ops.append("(%d, %d, vec![%s])" % (k, o["handle"], ", ".join(str(p) for p in o.get("premises", []))))
+    return """
+use rust_rule_engine::rete::tms::TruthMaintenanceSystem;
+use rust_rule_engine::rete::working_memory::FactHandle;
+use std::collections::{BTreeMap, BTreeSet};
+
+fn main() {
+    let ops: Vec<(u8, u64, Vec<u64>)> = vec![%s];
+    let mut tms = TruthMaintenanceSystem::new();
+    let mut present: BTreeSet<u64> = BTreeSet::new();
+    let mut explicit: BTreeSet<u64> = BTreeSet::new();
+    let mut logical: BTreeSet<u64> = BTreeSet::new();
+    let mut userret: BTreeSet<u64> = BTreeSet::new();
+    let mut inserted: BTreeSet<u64> = BTreeSet::new();
+    let mut impl_present: BTreeSet<u64> = BTreeSet::new();
+    let mut justs: Vec<(u64, Vec<u64>)> = Vec::new();
+    let mut bad: Vec<String> = Vec::new();
+    for (k, h, prem) in ops {
+        let fh = FactHandle::new(h);
+        let pv: Vec<FactHandle> = prem.iter().map(|p| FactHandle::new(*p)).collect();
+        match k {
+            0 => { tms.add_explicit_justification(fh); explicit.insert(h); present.insert(h); inserted.insert(h); impl_present.insert(h); }
+            1 => { tms.add_logical_justification(fh, "r".to_string(), pv); logical.insert(h); justs.push((h, prem.clone())); present.insert(h); inserted.insert(h); impl_present.insert(h); }
+            2 => { tms.add_logical_justification(fh, "r".to_string(), pv); logical.insert(h); justs.push((h, prem.clone())); }
+            _ => {
+                let got = tms.retract_with_cascade(fh);
+                let before = present.clone();
+                present.remove(&h);
+                userret.insert(h);
+                loop {
+                    let mut changed = false;
+                    for x in present.clone() {
+                        let sup = explicit.contains(&x) || justs.iter().any(|(f, p)| *f == x && p.iter().all(|q| present.contains(q)));
+                        if !sup { present.remove(&x); changed = true; }
+                    }
+                    if !changed { break; }
+                }
+                let want: BTreeSet<u64> = before.iter().filter(|x| !present.contains(x) && **x != h).cloned().collect();
+                let mut gotset: BTreeSet<u64> = BTreeSet::new();
+                for g in &got { if !gotset.insert(g.id()) { bad.push(format!("cascade returned {} twice", g.id())); } }
+                if gotset != want { bad.push(format!("cascade {:?} != facts that lost support {:?}", gotset, want)); }
+                impl_present.remove(&h);
+                for g in &gotset { impl_present.remove(g); }
+            }
+        }
+        if impl_present != present { bad.push(format!("live set {:?} != reference {:?}", impl_present, present)); }
+        for x in inserted.iter() {
+            let fx = FactHandle::new(*x);
+            let live = present.contains(x);
+            if tms.is_explicit(fx) != (live && explicit.contains(x)) { bad.push(format!("is_explicit({}) wrong", x)); }
+            if tms.is_logical(fx) != (live && logical.contains(x)) { bad.push(format!("is_logical({}) wrong", x)); }
+            if live && !tms.has_valid_justification(fx) { bad.push(format!("live fact {} without support", x)); }
+            if !live && !userret.contains(x) {
+                if explicit.contains(x) { bad.push(format!("explicit fact {} removed by a cascade", x)); }
+                if tms.has_valid_justification(fx) { bad.push(format!("supported fact {} was cascaded away", x)); }
+            }
+        }
+    }
+    let _unused: BTreeMap<u8, u8> = BTreeMap::new();
+    if bad.is_empty() { println!("NOT-REPRODUCED"); } else { println!("REPRODUCED: {:?}", bad); }
+}
+""" % ", ".join(ops)
+
+
 if __name__ == "__main__":
     import sys
     N, K = int(sys.argv[1]), int(sys.argv[2])
-    r = run(N, K, witness=len(sys.argv) > 3)
+    r = run(N, K, covers=["cascade2", "derived"], witness=len(sys.argv) > 3)
     print(r["status"], r["covers"], r["inconclusive"], "wall", r["wall_s"], "decide", r["decide_wall_s"])
     for msg, m in r["violations"]:
         print("VIOLATION", msg, decode(r, m))
